@@ -23,7 +23,7 @@ def main(ctx):
 
     def run(label, c, **kw):
         return recipe.tlc_only(label, 'Mgr', constants=c, invariants=INV, properties=PROPS,
-                               timeout=1800, heap='4g', **kw)
+                               timeout=1800, heap='4g', budget_ok=True, **kw)
     with ThreadPoolExecutor(4) as ex:
         fs = ex.submit(run, 'mgr-small', small, emit=True)
         fw = ex.submit(run, 'mgr-wide', wide, workers=6)
